@@ -102,7 +102,7 @@ def gen_power_script(rng, tier):
 
 def gen_powercut_script(rng):
     """Power loss seen through the I/O tap: every blob file is cut back to what a successful sync covered, the index
-    files stay. Blobs that were closed and whose index was dumped before the cut must be served in full (the blob is
+    files stay or are cut at any length. Blobs that were closed and whose index was dumped before the cut must be served in full (the blob is
     synced before its index is written); the blob being appended may lose its un-synced tail."""
     K = rng.choice([4, 32])
     L = ['cfg K=%d dup=1 group=2 bloom=none init=eager runtime=%s validate=%d' % (K, rng.choice(['mt', 'ct']), rng.choice([0, 1])), 'trace on', 'open']
@@ -125,7 +125,14 @@ def gen_powercut_script(rng):
     for k in closed_keys + tail_keys:
         L.append('R %s' % k)
     L.append('nop closedkeys=%s' % ','.join(closed_keys))
-    L += ['drop', 'powercut', 'open']
+    L += ['drop', 'powercut']
+    # an index file is not synced when the power goes: it may be left at any written length (the blob it describes was
+    # synced before the index was written, so it is whole and the index must be rebuilt from it)
+    nclosed = sum(1 for l in L if l in ('close_active', 'force_update always'))
+    for _ in range(rng.choice([0, 1, 1, 2])):
+        n = rng.choice([rng.randrange(0, 84), rng.randrange(84, 400), rng.randrange(84, 1200), -rng.randrange(1, 200), -rng.randrange(1, 40), -1])
+        L.append('trunc index %d %d' % (rng.randrange(nclosed), n))
+    L.append('open')
     for k in closed_keys + tail_keys:
         L.append('R %s' % k)
     L += ['counts', 'close']
